@@ -303,6 +303,8 @@ def correspond(ctx, model):
     _mark('oracle-only')
     # stacks with a Lean model (vstack / dstack of random expressions)
     S.model_tie(ctx, env, model, ctx.n(30, 1200))
+    # stacks inside further constructions (stack of a stack, views / arithmetic of a stack)
+    S.stackx_tie(ctx, env, model, ctx.n(30, 800))
     _mark('stacks')
     # freeze / Function.slice / Function.join with the Lean model
     S.freeze_tie(ctx, env, model, ctx.n(40, 1500))
